@@ -95,6 +95,7 @@ class Writer:
         self.execs: List[Event] = []
         self.filtered: Dict[str, Tuple[str, str]] = {}     # table -> (condition under which a row is written, location)
         self.reordered: Dict[str, Tuple[str, str]] = {}    # table -> (what changed the finished row list, location)
+        self.empty: Dict[str, str] = {}                    # table -> location of an INSERT whose row list is never filled
         s = self.summ
         appends: Dict[Term, List[Event]] = {}
         for e in s.events:
@@ -122,6 +123,10 @@ class Writer:
                     self.filtered[ins[0].table] = (show(mk_and([c for g in lst[3] for c in g[1]]))[:160], e.loc)
                 continue
             aps = appends.get(lst, [])
+            if not aps and lst[0] == "new":
+                # the list handed to the INSERT is never filled: nothing is written to this table
+                self.empty[ins[0].table] = e.loc
+                continue
             if len(aps) != 1 or aps[0].term[2][0][0] != "tuple":
                 raise AnalysisError("rows for table %s are not built by a single append of a tuple" % ins[0].table)
             self.rows[ins[0].table] = (aps[0].term[2][0][1], aps[0])
@@ -154,6 +159,10 @@ def r08_1(ck: Check) -> None:
         else:
             ck.violated("R08.1", construct, "placeholders %d, columns %d, tuple elements %s" % (ins.arity, ncols, len(rows[0]) if rows else None), where)
     ck.expect_count("R08.1", "INSERT statements", len(sch.inserts), 4)
+    for table, where in sorted(w.empty.items()):
+        ck.violated("R08.1", "%s: a row is written for every element of the batch" % table,
+                    "the list handed to the INSERT is created and never filled: nothing of the batch reaches this table, and what is read back "
+                    "lacks it", where)
     for table, (cond, where) in sorted(w.filtered.items()):
         ck.violated("R08.1", "%s: a row is written for every element of the batch" % table,
                     "rows are written only when %s — whatever the batch holds must come back on reload: a block left out here is never stored "
@@ -215,6 +224,8 @@ def r08_1(ck: Check) -> None:
               "signature": ("a", inp, "signature")}),
             ("transaction_outputs", "load_outputs", outp, "outputs",
              {"value": ("a", outp, "value"), "public_key": ("a", outp, "public_key")})):
+        if table not in w.rows:
+            continue          # (reported above: the row list of this table is never filled)
         row, ev = w.rows[table]
         ls = ck.summ(STORE + fn, 0)
         stores = [e for e in ls.events if e.kind == "store"]
